@@ -54,7 +54,7 @@ C14_OK(cfg, in, o) ==
       /\ (SignApplies(in) => (o.sig_present /\ o.sigalg = ExpAlg(in) /\ o.sig_ok /\ o.verified_by = ExpSigner(in)))
       /\ (~SignApplies(in) => ~o.sig_present)
 
-\* o (post): [built, forms, action_ok, field_count, field_ok, relay_present, relay_ok, script_submits, skeleton_ok]
+\* o (post): [built, forms, action_ok, field_count, field_ok, relay_present, relay_ok, script_submits, skeleton_ok, repeat_ok]
 C16_OK(cfg, in, o) ==
    (in.binding = "post") =>
       /\ o.built /\ o.forms = 1 /\ o.action_ok
@@ -62,6 +62,7 @@ C16_OK(cfg, in, o) ==
       /\ (o.relay_present <=> in.relay # "empty")
       /\ (o.relay_present => o.relay_ok)
       /\ o.script_submits /\ o.skeleton_ok
+      /\ o.repeat_ok        \* the identical call on the same document: the identical page, the document untouched
 
 \* C15 (fragment): what travels is exactly the produced document, so every value in it is recovered by parsing
 C15_OK(cfg, in, o) == o.built => ((in.binding = "redirect" => o.request_ok) /\ (in.binding = "post" => o.field_ok))
